@@ -13,7 +13,7 @@ CLAUSES = {
     "C07": ("complete-vaa-rejected-on-chain",),
     "C06": ("stored-vaa-not-quorum-verifiable",),
     "C02": ("signed-digest-differs-from-message", "signed-under-foreign-address", "published-without-local-observation", "published-twice", "not-published-at-quorum",
-            "published-vaa-not-quorum-verifiable", "own-observation-not-looped-back", "local-observation-not-signed",
+            "published-vaa-not-quorum-verifiable", "own-observation-not-looped-back", "local-observation-not-signed", "published-vaa-not-stored",
             "governance-emitter-signed", "signed-without-guardian-set"),
     "C14": ("pending-entry-discarded-early", "no-retry-when-due", "retry-too-early", "unobserved-entry-not-expired",
             "completed-entry-not-expired", "unexpected-reobservation-request", "retry-budget-exceeded",
